@@ -181,7 +181,7 @@ func observePartial(e *emitter, pi *partialInst, rf *refForest, dead []u.Hash, r
 }
 
 func genC06(cfg runCfg, e *emitter, rng *rand.Rand) {
-	runUndoHistories(cfg, e, rng, tierN(cfg, 200, 4000))
+	runUndoHistories(cfg, e, rng, tierN(cfg, 350, 4000))
 }
 
 // runUndoHistories: n blocks, undo k newest-first with full observation after each undo, redo.
